@@ -279,7 +279,7 @@ func runRT(candFile string) {
 	}
 	inContexts(boolSpec(true), "bool", true)
 	inContexts(boolSpec(false), "bool", true)
-	nnum := 2000
+	nnum := 1200
 	if thorough {
 		nnum = 60000
 	}
